@@ -55,10 +55,14 @@ def parse_via(channel, raw):
     """channel: 'qsl' | 'query' | 'forms' | 'params' | 'forms-after-body'"""
     from ombott import Ombott
     from ombott.request_pkg.helpers import parse_qsl, FormsDict
+    # 10 s for every call as long as none has hung; once a call HAS hung for 10 s (a violation already) the calls after it get
+    # less, so that a scanner that hangs on a whole class of strings does not cost ten seconds per string
+    hangs = getattr(parse_via, 'hangs', 0)
     try:
-        with core.time_limit(10):
+        with core.time_limit(10 if hangs == 0 else (1.0 if hangs < 3 else 0.25)):
             return _parse_via(channel, raw)
     except core.Hang:
+        parse_via.hangs = hangs + 1
         return [], 'Hang'
 
 
